@@ -45,6 +45,7 @@ From Coq Require Import PrimFloat.
 From Coq Require Import ZArith List Bool Reals Lra Permutation Sorted.
 From BZ Require Import Base.Ops Gen.Point Gen.BBox Gen.Line Gen.Quad Gen.Cubic Hand.Bounds Hand.CurveCurve Proofs.C02 Proofs.C06 Proofs.C06sym.
 Import ListNotations.
+From BZ Require Proofs.Transfer3.
 From BZ Require Gen.PathOps Proofs.Bridge5.
 From BZ Require Proofs.Transfer4.
 From BZ Require Gen.Sample Gen.CurveCurve Proofs.Bridge4.
@@ -242,6 +243,33 @@ Proof. exact @Bridge5.self_intersections_indices. Qed.
 Theorem C06_getSelfIntersections_gen_float :
   forall (fuel : nat) (d : segment float) (segs : list (segment float)), Bridge4.result_of (PathOps.Path_getSelfIntersections FOps key2F keyF_eqb fuel segs) = bind (self_intersections FOps key2F keyF_eqb fuel segs) (fun l : list sx => Ok (map (Bridge5.resolve d segs) l)).
 Proof. exact @Bridge5.getSelfIntersections_gen_float. Qed.
+Theorem C06_gen_cc_t_CC_reported_from_small_overlapping_boxes :
+  forall (K : Type) (key2 : R -> K) (keq : K -> K -> bool) (fuel : nat) (a b : seg4 R) (lo hi lo' hi' : R) (l : list (R * R)) (t1 t2 : R), CurveCurve.Cubic__curve_curve_intersections_t_Cubic ROps key2 keq fuel {| CurveCurve.rg_seg := a; CurveCurve.rg_lo := lo; CurveCurve.rg_hi := hi |} {| CurveCurve.rg_seg := b; CurveCurve.rg_lo := lo'; CurveCurve.rg_hi := hi' |} = Some (Sample.Returns l) -> In (t1, t2) l -> Transfer3.C06T.from_small_boxes {| pc := CCubic a; plo := lo; phi := hi |} {| pc := CCubic b; plo := lo'; phi := hi' |} t1 t2.
+Proof. exact @Transfer3.C06T.gen_cc_t_CC_reported_from_small_overlapping_boxes. Qed.
+Theorem C06_gen_cc_t_CC_report_distance_bound :
+  forall (K : Type) (key2 : R -> K) (keq : K -> K -> bool) (fuel : nat) (o1 o2 : curve R) (a b : seg4 R) (lo hi lo' hi' : R) (l : list (R * R)) (t1 t2 : R), (lo < hi)%R -> (lo' < hi')%R -> repr o1 {| pc := CCubic a; plo := lo; phi := hi |} -> repr o2 {| pc := CCubic b; plo := lo'; phi := hi' |} -> CurveCurve.Cubic__curve_curve_intersections_t_Cubic ROps key2 keq fuel {| CurveCurve.rg_seg := a; CurveCurve.rg_lo := lo; CurveCurve.rg_hi := hi |} {| CurveCurve.rg_seg := b; CurveCurve.rg_lo := lo'; CurveCurve.rg_hi := hi' |} = Some (Sample.Returns l) -> In (t1, t2) l -> Transfer3.C06T.distance_bounded o1 o2 {| pc := CCubic a; plo := lo; phi := hi |} {| pc := CCubic b; plo := lo'; phi := hi' |} t1 t2.
+Proof. exact @Transfer3.C06T.gen_cc_t_CC_report_distance_bound. Qed.
+Theorem C06_gen_cc_t_CC_no_miss_within_half_range :
+  forall (fuel : nat) (o1 o2 : curve R) (a b : seg4 R) (lo hi lo' hi' : R) (l : list (R * R)) (s t : R), (lo < hi)%R -> (lo' < hi')%R -> repr o1 {| pc := CCubic a; plo := lo; phi := hi |} -> repr o2 {| pc := CCubic b; plo := lo'; phi := hi' |} -> (forall (k : nat) (p : piece R), Desc k {| pc := CCubic a; plo := lo; phi := hi |} p -> encloses p) -> (forall (k : nat) (q : piece R), Desc k {| pc := CCubic b; plo := lo'; phi := hi' |} q -> encloses q) -> (lo <= s <= hi)%R -> (lo' <= t <= hi')%R -> ceval o1 s = ceval o2 t -> CurveCurve.Cubic__curve_curve_intersections_t_Cubic ROps (fun _ : R => tt) (fun _ _ : unit => false) fuel {| CurveCurve.rg_seg := a; CurveCurve.rg_lo := lo; CurveCurve.rg_hi := hi |} {| CurveCurve.rg_seg := b; CurveCurve.rg_lo := lo'; CurveCurve.rg_hi := hi' |} = Some (Sample.Returns l) -> Transfer3.C06T.within_half_range lo hi lo' hi' s t l.
+Proof. exact @Transfer3.C06T.gen_cc_t_CC_no_miss_within_half_range. Qed.
+Theorem C06_gen_cc_t_CC_raw_report_survives_by_key :
+  forall (K : Type) (key2 : R -> K) (keq : K -> K -> bool), (forall k : K, keq k k = true) -> (forall k1 k2 k3 : K, keq k1 k2 = true -> keq k2 k3 = true -> keq k1 k3 = true) -> forall (fuel : nat) (a b : seg4 R) (lo hi lo' hi' : R) (lr : list (R * R)), CurveCurve.Cubic__curve_curve_intersections_t_Cubic ROps (fun _ : R => tt) (fun _ _ : unit => false) fuel {| CurveCurve.rg_seg := a; CurveCurve.rg_lo := lo; CurveCurve.rg_hi := hi |} {| CurveCurve.rg_seg := b; CurveCurve.rg_lo := lo'; CurveCurve.rg_hi := hi' |} = Some (Sample.Returns lr) -> exists l : list (R * R), CurveCurve.Cubic__curve_curve_intersections_t_Cubic ROps key2 keq fuel {| CurveCurve.rg_seg := a; CurveCurve.rg_lo := lo; CurveCurve.rg_hi := hi |} {| CurveCurve.rg_seg := b; CurveCurve.rg_lo := lo'; CurveCurve.rg_hi := hi' |} = Some (Sample.Returns l) /\ Transfer3.C06T.survives_by_key key2 keq lr l.
+Proof. exact @Transfer3.C06T.gen_cc_t_CC_raw_report_survives_by_key. Qed.
+Theorem C06_gen_cc_t_QQ_reported_from_small_overlapping_boxes :
+  forall (K : Type) (key2 : R -> K) (keq : K -> K -> bool) (fuel : nat) (a b : seg3 R) (lo hi lo' hi' : R) (l : list (R * R)) (t1 t2 : R), CurveCurve.Quad__curve_curve_intersections_t_Quad ROps key2 keq fuel {| CurveCurve.rg_seg := a; CurveCurve.rg_lo := lo; CurveCurve.rg_hi := hi |} {| CurveCurve.rg_seg := b; CurveCurve.rg_lo := lo'; CurveCurve.rg_hi := hi' |} = Some (Sample.Returns l) -> In (t1, t2) l -> Transfer3.C06T.from_small_boxes {| pc := CQuad a; plo := lo; phi := hi |} {| pc := CQuad b; plo := lo'; phi := hi' |} t1 t2.
+Proof. exact @Transfer3.C06T.gen_cc_t_QQ_reported_from_small_overlapping_boxes. Qed.
+Theorem C06_gen_cc_t_CQ_reported_from_small_overlapping_boxes :
+  forall (K : Type) (key2 : R -> K) (keq : K -> K -> bool) (fuel : nat) (a : seg4 R) (b : seg3 R) (lo hi lo' hi' : R) (l : list (R * R)) (t1 t2 : R), CurveCurve.Cubic__curve_curve_intersections_t_Quad ROps key2 keq fuel {| CurveCurve.rg_seg := a; CurveCurve.rg_lo := lo; CurveCurve.rg_hi := hi |} {| CurveCurve.rg_seg := b; CurveCurve.rg_lo := lo'; CurveCurve.rg_hi := hi' |} = Some (Sample.Returns l) -> In (t1, t2) l -> Transfer3.C06T.from_small_boxes {| pc := CCubic a; plo := lo; phi := hi |} {| pc := CQuad b; plo := lo'; phi := hi' |} t1 t2.
+Proof. exact @Transfer3.C06T.gen_cc_t_CQ_reported_from_small_overlapping_boxes. Qed.
+Theorem C06_gen_cc_t_QC_reported_from_small_overlapping_boxes :
+  forall (K : Type) (key2 : R -> K) (keq : K -> K -> bool) (fuel : nat) (a : seg3 R) (b : seg4 R) (lo hi lo' hi' : R) (l : list (R * R)) (t1 t2 : R), CurveCurve.Quad__curve_curve_intersections_t_Cubic ROps key2 keq fuel {| CurveCurve.rg_seg := a; CurveCurve.rg_lo := lo; CurveCurve.rg_hi := hi |} {| CurveCurve.rg_seg := b; CurveCurve.rg_lo := lo'; CurveCurve.rg_hi := hi' |} = Some (Sample.Returns l) -> In (t1, t2) l -> Transfer3.C06T.from_small_boxes {| pc := CQuad a; plo := lo; phi := hi |} {| pc := CCubic b; plo := lo'; phi := hi' |} t1 t2.
+Proof. exact @Transfer3.C06T.gen_cc_t_QC_reported_from_small_overlapping_boxes. Qed.
+Theorem C06_gen_cc_t_CC_report_distance_bound_whole :
+  forall (K : Type) (key2 : R -> K) (keq : K -> K -> bool) (fuel : nat) (a b : seg4 R) (l : list (R * R)) (t1 t2 : R), CurveCurve.Cubic__curve_curve_intersections_t_Cubic ROps key2 keq fuel {| CurveCurve.rg_seg := a; CurveCurve.rg_lo := ofZ ROps 0; CurveCurve.rg_hi := ofZ ROps 1 |} {| CurveCurve.rg_seg := b; CurveCurve.rg_lo := ofZ ROps 0; CurveCurve.rg_hi := ofZ ROps 1 |} = Some (Sample.Returns l) -> In (t1, t2) l -> Transfer3.C06T.distance_bounded (CCubic a) (CCubic b) (whole ROps (CCubic a)) (whole ROps (CCubic b)) t1 t2.
+Proof. exact @Transfer3.C06T.gen_cc_t_CC_report_distance_bound_whole. Qed.
+Theorem C06_gen_intersections_CC_reports :
+  forall (K : Type) (key2 : R -> K) (keq : K -> K -> bool) (fuel : nat) (a b : seg4 R) (limited : bool) (l : list (R * pt R * R)) (t1 : R) (pnt : pt R) (t2 : R), CurveCurve.Cubic_intersections_Cubic ROps key2 keq fuel a b limited = Some (Sample.Returns l) -> In (t1, pnt, t2) l -> Transfer3.C06T.from_small_boxes (whole ROps (CCubic a)) (whole ROps (CCubic b)) t1 t2 /\ pnt = Cubic_pointAtTime ROps a t1 /\ (limited = true -> Transfer3.C06T.in_window t1 /\ Transfer3.C06T.in_window t2).
+Proof. exact @Transfer3.C06T.gen_intersections_CC_reports. Qed.
 
 Print Assumptions C06_range_invariant.
 Print Assumptions C06_repr_whole.
@@ -307,3 +335,12 @@ Print Assumptions C06_getSelfIntersections_gen.
 Print Assumptions C06_getSelfIntersections_gen_sym.
 Print Assumptions C06_self_intersections_indices.
 Print Assumptions C06_getSelfIntersections_gen_float.
+Print Assumptions C06_gen_cc_t_CC_reported_from_small_overlapping_boxes.
+Print Assumptions C06_gen_cc_t_CC_report_distance_bound.
+Print Assumptions C06_gen_cc_t_CC_no_miss_within_half_range.
+Print Assumptions C06_gen_cc_t_CC_raw_report_survives_by_key.
+Print Assumptions C06_gen_cc_t_QQ_reported_from_small_overlapping_boxes.
+Print Assumptions C06_gen_cc_t_CQ_reported_from_small_overlapping_boxes.
+Print Assumptions C06_gen_cc_t_QC_reported_from_small_overlapping_boxes.
+Print Assumptions C06_gen_cc_t_CC_report_distance_bound_whole.
+Print Assumptions C06_gen_intersections_CC_reports.
